@@ -56,6 +56,90 @@ def run_partial_case(case):
   return {'out': [], 'facts': facts}
 
 
+# a positional-only parameter (`def f(a=1, /, b=2)`): Gin supplies values by keyword, so the signature cannot accept a
+# bound value for it - binding it is refused on every path (it used to be accepted, and every later call then failed:
+# D56); with `**kwargs` the name is acceptable (it lands there); the other parameters stay bindable; nothing the
+# operative configuration lists afterwards fails to replay - a finite table on the real code
+POSONLY_CASES = [{'dom': 'gin', '_kind': 'posonly', 'path': path, 'shape': shape, 'varkw': varkw, 'ops': []}
+                 for path in ('str', 'tuple', 'scoped', 'text', 'block', 'hook')
+                 for shape in ('fn', 'class_configurable', 'class_external', 'class_register', 'method')
+                 for varkw in (False, True)]
+
+
+def run_posonly_case(case):
+  import core
+  gin = core.fresh_gin()
+  g = {'__name__': 'po', 'gin': gin}
+  kw = ', **kw' if case['varkw'] else ''
+  ret = '(a, b, dict(kw))' if case['varkw'] else '(a, b, {})'
+  shape = case['shape']
+  if shape == 'fn':
+    exec(f'def tgt(a=1, /, b=2{kw}):\n  return {ret}\n', g)  # pylint: disable=exec-used
+    call = gin.configurable(g['tgt'])
+    sel = 'po.tgt'
+  elif shape == 'method':
+    exec(f'class Tgt:\n  @gin.register\n  def run(self, a=1, /, b=2{kw}):\n    return {ret}\n', g)  # pylint: disable=exec-used
+    cls = gin.register(g['Tgt'])
+    call = lambda: gin.get_configurable(g['Tgt'])().run()
+    sel = 'po.Tgt.run'
+  else:
+    exec(f'class Tgt:\n  def __init__(self, a=1, /, b=2{kw}):\n    self.v = {ret}\n', g)  # pylint: disable=exec-used
+    if shape == 'class_configurable':
+      cls = gin.configurable(g['Tgt'])
+    elif shape == 'class_external':
+      cls = gin.external_configurable(g['Tgt'])
+    else:
+      gin.register(g['Tgt'])
+      cls = gin.get_configurable(g['Tgt'])
+    call = lambda: cls().v
+    sel = 'po.Tgt'
+  leaf = sel.split('.', 1)[1]
+  facts = {}
+
+  def bind(param, value):
+    path = case['path']
+    if path == 'str':
+      gin.bind_parameter(f'{sel}.{param}', value)
+    elif path == 'tuple':
+      gin.bind_parameter(('', sel, param), value)
+    elif path == 'scoped':
+      gin.bind_parameter(f'sc/{leaf}.{param}', value)
+    elif path == 'text':
+      gin.parse_config(f'{sel}.{param} = {value!r}\n')
+    elif path == 'block':
+      gin.parse_config(f'{leaf}:\n  {param} = {value!r}\n')
+    else:
+      gin.config.register_finalize_hook(lambda config: {f'{sel}.{param}': value})
+      try:
+        gin.finalize()
+      finally:
+        gin.config._FINALIZE_HOOKS.pop()  # pylint: disable=protected-access
+        if gin.config_is_locked():
+          gin.config._set_config_is_locked(False)  # pylint: disable=protected-access
+  try:
+    before = {k: dict(v) for k, v in gin.config._CONFIG.items()}  # pylint: disable=protected-access
+    try:
+      bind('a', 10)
+      facts['posonly'] = 'accepted'
+    except Exception as e:  # pylint: disable=broad-except
+      facts['posonly'] = type(e).__name__
+    facts['store_unchanged'] = {k: dict(v) for k, v in gin.config._CONFIG.items()} == before  # pylint: disable=protected-access
+    bind('b', 5)
+    with gin.config_scope('sc'):
+      facts['result'] = list(call())
+      facts['result'][2] = [list(kv) for kv in sorted(facts['result'][2].items())]
+    text = gin.operative_config_str()
+    facts['operative_lists_a'] = any(l.strip().endswith('.a = 1') or l.strip().endswith('.a = 10') for l in text.split('\n'))
+    gin.clear_config()
+    gin.parse_config(text)
+    with gin.config_scope('sc'):
+      facts['replay'] = list(call())
+      facts['replay'][2] = [list(kv) for kv in sorted(facts['replay'][2].items())]
+  except Exception as e:  # pylint: disable=broad-except
+    facts['error'] = f'{type(e).__name__}: {e}'[:300]
+  return {'out': [], 'facts': facts}
+
+
 # under dynamic registration the constructor of a class can be named as an attribute (`mod.Cls.__init__.param`): the
 # lists the class was registered with guard it all the same - a finite table on the real code
 INIT_CASES = [{'dom': 'gin', '_kind': 'init_lists', 'lists': ls, 'first': first, 'ops': []}
@@ -168,7 +252,7 @@ def run_skip_case(case):
   return {'out': [], 'facts': facts}
 
 
-TABLE_KINDS = ('partial', 'init_lists', 'skip_named')
+TABLE_KINDS = ('partial', 'init_lists', 'skip_named', 'posonly')
 
 
 def run_impl(case):
@@ -178,6 +262,8 @@ def run_impl(case):
     return run_init_case(case)
   if case.get('_kind') == 'partial':
     return run_partial_case(case)
+  if case.get('_kind') == 'posonly':
+    return run_posonly_case(case)
   if _dyn(case):
     from props import c19
     return c19.run_impl(case)
@@ -299,6 +385,7 @@ def gen_case(rng):
 
 def gen_cases(rng, tier, boost=1):
   yield from PARTIAL_CASES
+  yield from POSONLY_CASES
   yield from INIT_CASES
   yield from SKIP_CASES
   n = (800 if tier == 'quick' else 20000) * boost
@@ -335,6 +422,23 @@ def oracle(case, impl):
     if 'error' in f or f.get('excluded') != 'ValueError' or not f.get('store_unchanged') or f.get('instance') != want:
       return (f'a class registered with a {case["lists"]} list (through {case.get("via", "register")}), its constructor named as '
               f'`Cls.{case.get("ctor", "__init__")}` under dynamic registration (first statement: {case["first"]}): {f}')
+    return None
+  if case.get('_kind') == 'posonly':
+    f = impl['facts']
+    what = f'a positional-only parameter of a {case["shape"]} ({"with" if case["varkw"] else "without"} **kwargs), bound through {case["path"]}'
+    if 'error' in f:
+      return f'{what}: {f["error"]}'
+    if case['varkw']:
+      # the name is acceptable: it lands in **kwargs; the positional-only parameter keeps its default
+      want = [1, 5, [['a', 10]]]
+      if f.get('posonly') != 'accepted' or f.get('result') != want or f.get('replay') != want:
+        return f'{what}: the name lands in **kwargs, expected {want} on the call and on the replay: {f}'
+      return None
+    if f.get('posonly') != 'ValueError' or not f.get('store_unchanged'):
+      return (f'{what}: the signature cannot accept it by keyword, yet the binding was {f.get("posonly")} '
+              f'(store unchanged: {f.get("store_unchanged")})')
+    if f.get('result') != [1, 5, []] or f.get('replay') != [1, 5, []] or f.get('operative_lists_a'):
+      return f'{what}: the call / the replay of the operative configuration must give [1, 5, []] and not list `a`: {f}'
     return None
   if case.get('_kind') == 'partial':
     f = impl['facts']
